@@ -27,3 +27,21 @@ PROPS["C18"] = {
     "assumptions": COMMON_ASSUMPTIONS + ["indices passed to SetBit/GetBit are always below Len() (the documented domain)",
                                          "AddBits counts are 0..64 (an int has 64 bits)"],
 }
+
+PROPS["C17"] = {
+    "technique": "exhaustive enumeration of all operand pairs per field + rapid-generated polynomials and Reed-Solomon call histories against schoolbook GF(2^m) arithmetic and an LFSR reference encoder",
+    "level_text": "exploration with exhaustive sub-domains: every operand pair of all 6 fields (x base 0/1) is compared with carry-less multiply-and-reduce arithmetic (Multiply, commutativity, Divide, Invers), all triples of the small fields for associativity; random polynomials check dividend = q*d + r; histories of Encode calls on one encoder are compared with an independent shift-register encoder and root evaluation",
+    "level_note": "trusted: harness/ref/gf.go (schoolbook arithmetic, ~120 lines, no tables); domain: divisor != 0, 1 <= check symbols <= min(600, size-1), symbols within the field",
+    "parts": [
+        {"name": "regression", "kind": "plain", "test": "TestReplayDir"},
+        {"name": "field-exhaustive", "kind": "plain", "test": "TestC17FieldExhaustive"},
+        {"name": "rs-degrees", "kind": "plain", "test": "TestC17RSDegrees"},
+        {"name": "rapid", "kind": "rapid", "test": "TestC17Rapid", "checks": {"quick": 6000, "thorough": 300000}},
+    ],
+    "rule": "exhaustive: all (a,b) of GF(16), GF(64), GF(256)/0x11D, GF(256)/0x12D, GF(1024), GF(4096), each with base 0 and 1 (non-trivial = a != 0, "
+            "distinct by enumeration); all triples for associativity up to 64 (quick) / 256 (thorough) elements. rapid: 200 random triples per case "
+            "for the larger fields; polynomial pairs of length 1..60 incl. zero polynomial, leading zeros, monomials (non-trivial = both non-zero); "
+            "Reed-Solomon histories of 1..6 Encode calls on one encoder with check-symbol counts 1..min(600,size-1) in ascending/descending/"
+            "repeated/mixed order and data lengths 0..300 (non-trivial = at least 2 calls); rs-degrees: every count once ascending and descending.",
+    "assumptions": COMMON_ASSUMPTIONS + ["Divide/Invers are only required for non-zero divisors; Encode only for 1 <= eccCount <= size-1"],
+}
